@@ -29,7 +29,30 @@ def gen_coq():
     s += G.defz('EV_VELOCITY', PE.VELOCITY)
     s += G.defz('EV_DURATION', PE.DURATION)
     s += G.defzlistlist('DEFAULT_DRUM_TYPE_PITCHES', drums_encoder_decoder.DEFAULT_DRUM_TYPE_PITCHES)
+    # chord one-hot encodings: what each decodable name MEANS to the library's own parser
+    from note_seq import chords_encoder_decoder as ced, chord_symbols_lib as csl
+    s += G.defz('NOTES_PER_OCTAVE', ced.NOTES_PER_OCTAVE)
+    for nm in ('MAJOR', 'MINOR', 'AUGMENTED', 'DIMINISHED', 'OTHER'):
+        s += G.defz('CHORD_QUALITY_' + nm, getattr(csl, 'CHORD_QUALITY_' + nm))
+    rows = []
+    for sfx in CHORD_SUFFIXES:
+        rows.append('[' + '; '.join(G.zlist([csl.chord_symbol_root(n + sfx), csl.chord_symbol_quality(n + sfx)])
+                                    for n in ced._PITCH_CLASS_MAPPING) + ']')
+    s += 'Definition DECODED_NAME_MEANING : list (list (list Z)) :=\n  [' + ';\n   '.join(rows) + '].\n'
     return s
+
+
+CHORD_SUFFIXES = ['', 'm', 'aug', 'dim']
+CHORD_FIGS = ['C', 'Am', 'G7', 'F#m7b5', 'Bb', 'Cmaj7', 'Absus4', 'Edim', 'Caug', 'B', 'Cb', 'B7', 'Bm', 'B#', 'Bmaj7',
+              'Bm7', 'Baug', 'Bdim', 'Bdim7', 'Dbm', 'C#', 'Ebm7', 'F#', 'Gb', 'Abm', 'A#m', 'Bbm', 'D7', 'E+', 'Eo',
+              'G5', 'Asus2', 'Fm6', 'D9', 'Gm(b5)', 'C/E', 'Am/C', 'Bb/D', 'B/D#', 'Cbm', 'Fb', 'E#m']
+
+
+def _meaning(fig):
+    from note_seq import chord_symbols_lib as csl
+    if fig == 'N.C.':
+        return []
+    return [csl.chord_symbol_root(fig), csl.chord_symbol_quality(fig)]
 
 
 def _exc(e):
@@ -99,6 +122,12 @@ def cases(rng, tier, n=None):
         k = rng.randint(0, 8)
         bs = sorted(rng.sample(range(1, 60), k))
         out.append({'op': 'density', 'input': [bs, rng.randint(0, 64), rng.randint(0, k)]})
+    # chord one-hot encodings: every index (and a margin outside the range), every figure of a fixed list
+    for op, nc in (('chord_mm', 25), ('chord_triad', 49)):
+        for i in range(-2, nc + 2):
+            out.append({'op': op, 'input': [i, CHORD_FIGS[(i + 2) % len(CHORD_FIGS)]]})
+        for fig in CHORD_FIGS + ['N.C.']:
+            out.append({'op': op, 'input': [rng.randrange(nc), fig]})
     if n is not None:
         out = out[:n]
     return out
@@ -149,6 +178,12 @@ def impl(case):
         dv = enc.decode_event(i)
         assert dv == int(dv)
         return ['OK', enc.num_classes, enc.encode_event(float(e)), int(dv)]
+    if op in ('chord_mm', 'chord_triad'):
+        from note_seq import chords_encoder_decoder as ced
+        i, fig = a
+        enc = ced.MajorMinorChordOneHotEncoding() if op == 'chord_mm' else ced.TriadChordOneHotEncoding()
+        return ['OK', enc.num_classes, _try(lambda: enc.encode_event(fig)),
+                _try(lambda: _meaning(enc.decode_event(i)))]
     raise ValueError(op)
 
 
@@ -167,6 +202,12 @@ def model_input(case):
         return [5, a[0], a[1], a[2], a[3]]
     if op == 'density':
         return [6] + a
+    if op in ('chord_mm', 'chord_triad'):
+        try:
+            m = _meaning(a[1])
+        except Exception:  # figure the library cannot parse: no model side for encode
+            return None
+        return [7 if op == 'chord_mm' else 8, a[0], m]
 
 
 def _opt(o):
@@ -190,6 +231,10 @@ def model_output(case, m):
         return ['OK', nc, ['OK', enc[0]] if enc else ['EXC', 'DrumsEncodingError'], ['OK', sorted(set(dec))]]
     if op == 'density':
         return ['OK'] + m
+    if op in ('chord_mm', 'chord_triad'):
+        nc, enc, dec = m
+        return ['OK', nc, ['OK', enc[0]] if enc else ['EXC', 'ChordEncodingError'],
+                ['OK', dec[0]] if dec else ['EXC', 'IndexError']]
 
 
 # ---------------------------------------------------------------- oracle: the property on the implementation
@@ -298,6 +343,32 @@ def oracle(case, io):
         return None
 
 
+    if op in ('chord_mm', 'chord_triad'):
+        from note_seq import chords_encoder_decoder as ced
+        i, fig = a
+        enc = ced.MajorMinorChordOneHotEncoding() if op == 'chord_mm' else ced.TriadChordOneHotEncoding()
+        nc = enc.num_classes
+        if 0 <= i < nc:
+            try:
+                ev = enc.decode_event(i)
+                back = enc.encode_event(ev)
+            except Exception as e:  # noqa
+                return {'kind': 'chord-decode-or-encode-raises', 'op': op, 'index': i, 'exc': type(e).__name__}
+            if back != i:
+                return {'kind': 'chord-decode-encode-not-identity', 'op': op, 'index': i, 'decoded': ev, 'got': back}
+            names = [enc.decode_event(k) for k in range(nc)]
+            if len(set(names)) != nc:
+                return {'kind': 'chord-decode-not-injective', 'op': op}
+        if io[2][0] == 'OK':
+            c = io[2][1]
+            if not (0 <= c < nc):
+                return {'kind': 'chord-encode-out-of-range', 'op': op, 'figure': fig, 'got': c}
+            if _meaning(enc.decode_event(c)) != _meaning(fig):
+                return {'kind': 'chord-encode-decode-changes-root-or-quality', 'op': op, 'figure': fig,
+                        'decoded': enc.decode_event(c)}
+        return None
+
+
 def nontrivial(case, io):
     return io[0] == 'OK'
 
@@ -310,5 +381,8 @@ META = {
                    'differential run over ~10k (quick) / exhaustive grids (thorough) of (configuration, index, event) triples.'),
     'level_note': ('Trusted: Coq kernel + vm_compute; the hand-written model Model/OneHot.v (tied by correspondence only); '
                    'integer ceiling vs math.ceil checked for all 127 bin counts; density boundaries modelled as integers. '
-                   'The two chord one-hot encodings are covered under the chord-symbol model (see evidence ops).'),
+                   'Chord one-hot encodings (major/minor 25 classes, triads 49): complete in-kernel enumeration over the '
+                   'table of (root, quality) meanings the library parser assigns to every decodable name, regenerated on every '
+                   'run, plus a general encode-range/inverse lemma for every (root 0..11, quality); parsing figure strings to '
+                   '(root, quality) is chord_symbols_lib itself (glue; its semantics is property C15).'),
 }
